@@ -24,7 +24,7 @@ fn spec(tier: Tier) -> SimSpec {
             must_have: Some(Kind::Unordered),
         },
         ops,
-        oracles: Oracles { content: true, content_kinds: vec![Kind::Unordered], prompt: true, ..Default::default() },
+        oracles: Oracles { content: true, content_kinds: vec![Kind::Unordered], prompt: true, impolite_once: true, ..Default::default() },
         liveness: true,
         quiescence: false,
         quiescence_memory: false,
@@ -44,7 +44,7 @@ impl Property for C02 {
     fn assumptions(&self) -> Vec<String> {
         vec![
             "liveness only with a tick budget of at least one slice and both sides connected".into(),
-            "the application only submits what can_send_message allows".into(),
+            "the application only submits what can_send_message allows, except that in about half of the cases it insists once on a reliable message that was refused (documented: the connection is disconnected; a connection that stays up has accepted the message)".into(),
         ]
     }
     fn pbt(&self, tier: Tier) -> PbtCfg {
